@@ -41,7 +41,7 @@ ASSUMPTIONS = ["float64 CPU", "scf_eps 1e-10 (some 1e-8): force noise 2e3 eps be
                "descent asserted only for alpha <= 2e-3 (DESIGN: at 2e-2 a C=O stretch legitimately overshoots)",
                "the tie 'criterion first met on the cap-th evaluation' is recorded, not judged (statement leaves it open)",
                "dE of a run with a single evaluation (E_1 - 0) is recorded, not judged"]
-REQUIRED_MONITORS = ["onestep_calls", "independent_single_points", "runs_stopped_by_criterion", "runs_stopped_by_cap",
+REQUIRED_MONITORS = ["dispersion_runs", "onestep_calls", "independent_single_points", "runs_stopped_by_criterion", "runs_stopped_by_cap",
                      "padding_atoms_checked", "alone_vs_batch_rows", "reuse_cap_run_after_converged_run",
                      "reuse_converged_run_after_cap_run"]
 CASE_TIMEOUT = 900.0
@@ -49,9 +49,11 @@ BUDGET_S = {"quick": 200, "thorough": 1700}
 MIN_NONTRIVIAL = 4
 
 EPS = 2.220446049250313e-16
+BIG = 1e300
 EPS_REF = 1e-11
 ALPHA_DESCENT = 2e-3
 TOL_PATH = 1e-7
+TOL_F_CROSS = 5e-6
 MECH_SCF = "scf-solution-depends-on-batch-mates"
 
 
@@ -105,6 +107,15 @@ def gen_cases(tier, seed):
         cases.append({"kind": "reuse", "mols": mols, "method": method, "solver": solver, "solver_par": par, "eps": 1e-10,
                       "grad": ["autodiff", "analytical"][k % 2], "alpha": float([2e-3, 1e-3][k % 2]), "sigma": 0.05,
                       "extra_pad": int(k % 2), "pad_value": ["zero", "far"][k % 2], "runs": runs, "cap": 0})
+    # AM1-FS1 dispersion switched on, weakly bound complex: energy and force must stay consistent along the run
+    dlist = [(4.5, False, 2e-3, "autodiff")] if q else [(4.5, False, 2e-3, "autodiff"), (4.5, True, 2e-3, "autodiff"),
+                                                          (4.0, False, 1e-3, "autodiff"), (5.0, False, 2e-3, "analytical"),
+                                                          (4.5, False, 2e-3, "analytical")]
+    for sep, water, al, gr in dlist:
+        cases.append({"mols": ["CH4", "CH4"] + (["H2O"] if water else []), "dimer": {"sep": sep, "with_water": water},
+                      "dispersion": True, "method": "AM1", "solver": "adaptive", "solver_par": None, "eps": 1e-11, "grad": gr,
+                      "alpha": al, "stop": ["cap", 0.0], "cap": 8, "sigma": 0.0, "extra_pad": 1 if water else 0,
+                      "pad_value": "zero", "geom_seed": 1})
     # expensive first
     cases.sort(key=lambda c: -((c["cap"] or sum(r["cap"] for r in c.get("runs", []))) * sum(len(gen.molecule(m)[0]) for m in c["mols"])))
     return cases
@@ -114,16 +125,16 @@ def _settings(case, eps=None, cold=False):
     from vlib import run
 
     if cold:
-        return run.settings(case["method"], eps=EPS_REF, converger=(2,), grad=case["grad"])
+        return run.settings(case["method"], eps=EPS_REF, converger=(2,), grad=case["grad"], extra=_X(case))
     s, p = case["solver"], case["solver_par"]
     if s == "pulay":
-        return run.settings(case["method"], eps=case["eps"], converger=(2,), grad=case["grad"])
+        return run.settings(case["method"], eps=case["eps"], converger=(2,), grad=case["grad"], extra=_X(case))
     if s == "mix":
-        return run.settings(case["method"], eps=case["eps"], converger=(0, p), grad=case["grad"])
+        return run.settings(case["method"], eps=case["eps"], converger=(0, p), grad=case["grad"], extra=_X(case))
     if s == "adaptive":
-        return run.settings(case["method"], eps=case["eps"], converger=(1,), grad=case["grad"])
+        return run.settings(case["method"], eps=case["eps"], converger=(1,), grad=case["grad"], extra=_X(case))
     if s == "sp2":
-        return run.settings(case["method"], eps=case["eps"], converger=(2,), sp2=p, grad=case["grad"])
+        return run.settings(case["method"], eps=case["eps"], converger=(2,), sp2=p, grad=case["grad"], extra=_X(case))
     raise ValueError(s)
 
 
@@ -139,6 +150,22 @@ def _eps_eff(case):
 
 
 def _batch(case):
+    if case.get("dimer"):
+        # methane dimer, monomers at their AM1 minimum (C-H 1.1116 A), C...C = sep: every inter-monomer pair is beyond
+        # the AM1-FS1 damping radius, so the dispersion correction and its force are switched on
+        a, sep = 0.64179, float(case["dimer"]["sep"])
+        mono = np.array([[0.0, 0, 0], [a, a, a], [-a, -a, a], [-a, a, -a], [a, -a, -a]])
+        Z = [6, 6] + [1] * 8
+        X = np.vstack([mono[:1], mono[:1] + [sep, 0, 0], mono[1:], mono[1:] + [sep, 0, 0]])
+        X = X + np.random.default_rng(case["geom_seed"]).normal(0, float(case["dimer"].get("sigma", 0.0)), X.shape)
+        mols, charges, mults = [(Z, X)], [0], [1]
+        if case["dimer"].get("with_water"):
+            Zw, Xw, _, _ = gen.molecule("H2O")
+            mols.append((Zw, Xw))
+            charges.append(0)
+            mults.append(1)
+        S, C = gen.pad_batch(mols, extra_pad=int(case.get("extra_pad", 0)), pad_value=0.0)
+        return np.array(S), np.array(C, float), charges, mults
     g = np.random.default_rng(case["geom_seed"])
     mols, charges, mults = [], [], []
     for name in case["mols"]:
@@ -150,6 +177,27 @@ def _batch(case):
     pv = {"zero": 0.0, "random": "random", "far": 37.5}[case["pad_value"]]
     S, C = gen.pad_batch(mols, extra_pad=case["extra_pad"] if len(mols) > 1 or case["extra_pad"] else 0, pad_value=pv, g=g)
     return np.array(S), np.array(C, float), charges, mults
+
+
+def _margin(margins, name, val, bound):
+    """observed/bound; a non-finite observation (NaN compares False with everything) violates its clause"""
+    v, b = float(val), float(bound)
+    r = min(v / b, BIG) if math.isfinite(v) and math.isfinite(b) and b > 0 else (0.0 if v == 0 and b == 0 else BIG)
+    if name not in margins or r > margins[name]:
+        margins[name] = r
+    return not (r <= 1.0)
+
+
+def _X(case):
+    return {"dispersion": True} if case.get("dispersion") else None
+
+
+def _ind_grad(case):
+    """gradient mode of the independent single points: the run's own, except with the dispersion correction, where the
+    OTHER force path is used (back-propagation vs analytical), so that a term missing from one path cannot hide"""
+    if case.get("dispersion"):
+        return "analytical" if case["grad"] == "autodiff" else "autodiff"
+    return case["grad"]
 
 
 _LINE = re.compile(r"^(\d+)\s+([-+0-9.eE]+|nan|inf)\s+\|\|(.*)$")
@@ -217,6 +265,12 @@ def _judge_basic(count, margin, violate, cells, case, out, S, C0, alpha, tol, ca
     nmol = S.shape[0]
     real = S > 0
     eps_eff, A = _eps_eff(case), _amp(case)
+    for i, r in enumerate(rec):
+        if not (np.isfinite(r["F"]).all() and np.isfinite(r["E"]).all() and np.isfinite(r["xa"]).all()):
+            violate("recorded-force-energy-coordinates-finite", evaluation=i + 1)
+            break
+    if not all(math.isfinite(x) for x in out["ret"]):
+        violate("returned-values-finite", returned=list(out["ret"]))
     # ---- update rule, chain --------------------------------------------------------------------------
     xmax = max(1.0, float(np.abs(C0[real]).max()))
     for i, r in enumerate(rec):
@@ -242,7 +296,7 @@ def _judge_basic(count, margin, violate, cells, case, out, S, C0, alpha, tol, ca
         rise = (E[1:] - E[:-1]).max()
         count("descent_steps_checked", (n - 1) * nmol)
         margin("energy_rise_over_10eps", max(float(rise), 0.0), 10 * eps_eff * A + 1e-300)
-        if rise > 10 * eps_eff * A:
+        if not (rise <= 10 * eps_eff * A):
             i, k = np.unravel_index(np.argmax(E[1:] - E[:-1]), (n - 1, nmol))
             violate("energy-never-rises-for-small-alpha", evaluation=int(i) + 2, molecule=int(k), rise=float(rise),
                     E_prev=float(E[i, k]), E_new=float(E[i + 1, k]))
@@ -340,10 +394,7 @@ def _run_reuse(case):
         mon[k] = mon.get(k, 0) + int(n)
 
     def margin(name, val, bound):
-        r = float(val) / float(bound)
-        if name not in margins or r > margins[name]:
-            margins[name] = r
-        return r > 1.0
+        return _margin(margins, name, val, bound)
 
     def violate(clause, **detail):
         if len(viol) < 12:
@@ -403,10 +454,7 @@ def run_case(case):
         mon[k] = mon.get(k, 0) + int(n)
 
     def margin(name, val, bound):
-        r = float(val) / float(bound)
-        if name not in margins or r > margins[name]:
-            margins[name] = r
-        return r > 1.0
+        return _margin(margins, name, val, bound)
 
     def violate(clause, **detail):
         if len(viol) < 12:
@@ -435,6 +483,8 @@ def run_case(case):
     if any(r["nc"] is not None and r["nc"].any() for r in rec):
         return {"ineligible": "an SCF inside the optimisation was flagged not converged", "monitors": mon}
     eps_eff, A = _eps_eff(case), _amp(case)
+    if case.get("dispersion"):
+        count("dispersion_runs")
     solver_cell = "%s/%s/%s" % (case["method"], case["solver"], case["grad"])
     cells.add("solver/" + solver_cell)
     cells.add("alpha/%g" % alpha)
@@ -447,6 +497,11 @@ def run_case(case):
     # evaluation (fixed mixing measured at 0.24 of that bound), so 5x that allowance keeps the margin >= 5x while a stale
     # or sign-flipped force is >= 1e-3 eV/A
     tolF = 1e4 * (eps_eff + EPS_REF) * A + 1e-9
+    if case.get("dispersion"):
+        # back-propagated vs analytical force of the same energy (measured 2e-8 eV/A on the methane dimer; the dispersion
+        # force itself is 1e-3..1e-2 eV/A there)
+        tolF = max(tolF, TOL_F_CROSS)
+        cells.add("dispersion/AM1-FS1/independent-force-by-%s" % _ind_grad(case))
     tolE = 100 * (eps_eff + EPS_REF) * A + 1e-9  # C04's 20 eps_eff A, same x5 allowance (SP2 at its 1e-7 floor: 6.7 eps_eff seen)
     # The independent evaluation is a cold start, so it may land on ANOTHER self-consistent solution than the warm-started
     # run (seen: MNDO PH3, cold Pulay converges, flagged converged, to a state 37 eV above the one every other solver and
@@ -457,11 +512,11 @@ def run_case(case):
     # x_i started from the density the run had at that evaluation.  Still a single point at the recorded geometry,
     # outside the optimiser: a stale / sign-flipped / wrong-geometry force cannot match it.
     def cold_solvers(i):
-        yield "pulay", run.settings(case["method"], eps=EPS_REF, converger=(2,), grad=case["grad"]), None
-        yield "adaptive", run.settings(case["method"], eps=EPS_REF, converger=(1,), grad=case["grad"]), None
-        yield "mix0.3", run.settings(case["method"], eps=EPS_REF, converger=(0, 0.3), grad=case["grad"]), None
+        yield "pulay", run.settings(case["method"], eps=EPS_REF, converger=(2,), grad=_ind_grad(case), extra=_X(case)), None
+        yield "adaptive", run.settings(case["method"], eps=EPS_REF, converger=(1,), grad=_ind_grad(case), extra=_X(case)), None
+        yield "mix0.3", run.settings(case["method"], eps=EPS_REF, converger=(0, 0.3), grad=_ind_grad(case), extra=_X(case)), None
         if rec[i].get("dm") is not None:
-            warm = _settings(case)  # the run's own solver (another one may leave the state the run is on)
+            warm = _settings(dict(case, grad=_ind_grad(case)))  # the run's own solver (another may leave the run's state)
             warm["scf_eps"] = EPS_REF
             yield "warm-from-recorded-density", warm, rec[i]["dm"]
 
